@@ -102,7 +102,7 @@ CHECKS["C11"] = dict(
 )
 
 CHECKS["C02"] = dict(
-    level_text="Differential monitor: the real init+verify is executed on every token sequence of <= L tokens over a 38-token alphabet holding every token kind, width boundary, "
+    level_text="Differential monitor: the real init+verify is executed on every token sequence of <= L tokens over a 40-token alphabet holding every token kind, width boundary, "
                "non-minimal/negative/overlong length and illegal type byte (exhaustive; both root kinds, max_depth 1..3, plus wrapping variants), on nesting ladders around both limits, "
                "on the 1791 corpus files at five depths, and on random valid documents, mutants and token soup; verdict and depth error code are compared with an independent recogniser.",
     technique="differential runtime monitor: verify vs independent recogniser; exhaustive token-sequence enumeration + ladders + corpus + mutation, ASan+UBSan",
@@ -114,7 +114,7 @@ CHECKS["C02"] = dict(
     exhaustive_note="all token sequences of <= L body tokens over the alphabet (L=4 quick, L=5 thorough) x {object,array} root x max_depth {1,2,3}",
     assumptions=["vrecognise (harness/vh.c) is the reading of the specification: root counts as level 1 for either root kind, array nesting counted per object level, <= 255",
                  "UTF-8 validity of strings is not part of the property"],
-    jobs=[dict(name="c02e", src=["w_verify.c", "vh.c"], build="gasan", mode="c02e", cases=(2141491, 81376659), opt=("4", "5"), require=["verify_accepted", "verify_rejected", "depth_first_obstacle"]),
+    jobs=[dict(name="c02e", src=["w_verify.c", "vh.c"], build="gasan", mode="c02e", cases=(2625641, 105025641), opt=("4", "5"), require=["verify_accepted", "verify_rejected", "depth_first_obstacle"]),
           dict(name="c02r", src=["w_verify.c", "vh.c"], build="gasan", mode="c02r", cases=(400000, 8000000), require=["accepted", "rejected", "corpus_runs", "ladder_batches", "depth_first_obstacle"])],
 )
 ENGINE_NOTES["w_verify.c"] = "verify vs independent recogniser: exhaustive token enumeration, nesting ladders, corpus, mutants (gcc ASan+UBSan)"
